@@ -284,6 +284,20 @@ fn run_ops(sh: &Arc<Shared>, h: &Handle, thread: u64, ops: &[Value]) {
                     polls += 1;
                 }
             }
+            "wait_writer_idle" => {
+                // until the writer thread is parked and the stream has not been called for a whole flush interval
+                // (every producer has finished by now, so a parked writer means an empty queue); bounded
+                let step = ju(op, "ns", 1_000_000).max(1_000);
+                let mut last = u64::MAX;
+                for _ in 0..20_000 {
+                    let done = sh.ctl.nexts_done.load(Ordering::SeqCst);
+                    if writer_parked(sh) && done == last {
+                        break;
+                    }
+                    last = done;
+                    detsim::sleep_ns(step);
+                }
+            }
             "gate_open_after" => {
                 let ctl = sh.ctl.clone();
                 let ns = ju(op, "ns", 0);
@@ -1266,6 +1280,22 @@ fn outage_stratum(mut plan: Value) -> Value {
     plan
 }
 
+/// The shutdown timeout has no say while the queue is alive: a fifth of the flush-barrier plans run with one of
+/// 1 ms / 50 ms / 2 s (far below the stalls of the stream) and, so that it has no say at the end either, wait for the
+/// writer to be idle before the join handle is dropped.
+fn small_timeout_stratum(mut plan: Value) -> Value {
+    let h = mix(ju(plan.get("sched").unwrap_or(&Value::Null), "seed", 0), 0x5a11);
+    if h % 5 == 0 && ju(&plan, "shutdown_timeout_ns", 0) == 1_000_000_000_000_000 && plan.get("shutdown_timeout_huge").is_none() && plan.get("pre_end").map(|p| p.is_array()).unwrap_or(false) {
+        plan["shutdown_timeout_ns"] = json!([1_000_000u64, 50_000_000, 2_000_000_000][(h / 5 % 3) as usize]);
+        let step = ju(&plan, "flush_interval_ns", 1_000_000);
+        if let Some(pre) = plan["pre_end"].as_array_mut() {
+            pre.push(json!({"op":"wait_writer_idle","ns": step}));
+        }
+        plan["end_before_join"] = json!(false);
+    }
+    plan
+}
+
 /// A tenth of the plans whose shutdown timeout means "never give up" (10^6 s) say so with `Duration::MAX` or
 /// another huge value instead. Decided from the schedule seed, so that no other draw of the plan moves.
 fn huge_timeout_stratum(mut plan: Value) -> Value {
@@ -1924,7 +1954,7 @@ impl Scenario for QueueFlushBarrier {
         3
     }
     fn generate(&self, rng: &mut Rng, tier: Tier) -> Value {
-        huge_timeout_stratum(gen_c04_safety(rng, tier))
+        small_timeout_stratum(huge_timeout_stratum(gen_c04_safety(rng, tier)))
     }
     fn run(&self, plan: &Value) -> Report {
         let (out, run) = run_queue_plan(plan);
